@@ -73,6 +73,10 @@ package main
 // (Go arrays, structs, maps, channels ... included) and the place is stored to while the
 // operation is still under way; reference = the same program with id(place) in that position.
 //
+// Round 6 (c20_r6.go): struct values whose POINTER type is a Stringer / an error and a large Go array as
+// operand kinds; ==, !=, in, switch with operands of different provenances; phase bindpos (the operation
+// runs inside the construct that binds the hole's name; reference = the name bound by `=`).
+//
 // c20PendingFix_* constants: input classes on which the unchanged tree violates the
 // statement (C20-genuine.md); they are generated only when the constant is false.
 
@@ -374,6 +378,7 @@ func c20NewState() *c20State {
 	e.Define("pfl", c20TypedField)
 	e.Define("pto", c20TypedCell)
 	e.Define("tmp", c20TypedMap)
+	c20R6Define(st)
 	return st
 }
 
@@ -462,6 +467,8 @@ func c20MakeVals() []c20Val {
 			st.base[name] = f
 		}},
 	)
+	// round 6: struct values whose POINTER type is a Stringer / an error, a large Go array (c20_r6.go)
+	vs = append(vs, c20R6Vals()...)
 	return vs
 }
 
@@ -474,6 +481,20 @@ type c20Hole struct {
 	assignable bool     // the expression designates a place (re-reading it reads the same storage)
 	itemSyntax bool     // syntactically an index expression
 	boxed      bool     // naming only: the interpreter is expected to carry the value as interface{} here
+	// phase bindpos (c20_r6.go): the operation runs INSIDE the construct that binds the hole's name (the
+	// body of a for-in loop, of a callee ...): open ... close enclose it, inner runs inside before it
+	open, close string
+	inner       []string
+}
+
+// withPre adds statements that prepare the hole: inside the binding construct once there is one
+func (h c20Hole) withPre(stmts ...string) c20Hole {
+	if h.open != "" {
+		h.inner = append(append([]string{}, h.inner...), stmts...)
+	} else {
+		h.pre = append(append([]string{}, h.pre...), stmts...)
+	}
+	return h
 }
 
 type c20Atom struct {
@@ -486,11 +507,12 @@ type c20Atom struct {
 	typedPlace bool // an assignable hole whose storage has the operand's static type (a store converts to it)
 	typedOnly  bool // used by phase typed only (a binding hop meant to follow a typed location)
 	noPtr      bool // not with a pointer operand
+	wrap       bool // phase bindpos only: the atom binds a name by a construct the operation runs inside of
 	apply      func(h c20Hole, n string) c20Hole
 }
 
 func c20MakeAtoms() []c20Atom {
-	all := c20AllAtoms()
+	all := append(c20AllAtoms(), c20R6WrapAtoms()...)
 	var atoms []c20Atom
 	for _, a := range all {
 		if c20PendingFix_nonEmptyIfaceBox && (a.name == "terrelem" || a.name == "tstringerelem" || a.name == "treaderelem") {
@@ -508,7 +530,9 @@ func c20AllAtoms() []c20Atom {
 			if boxed >= 0 {
 				b = boxed == 1
 			}
-			return c20Hole{pre: h.pre, expr: f(h.expr), itemSyntax: item, boxed: b}
+			nh := h
+			nh.expr, nh.itemSyntax, nh.boxed, nh.assignable = f(h.expr), item, b, false
+			return nh
 		}
 	}
 	place := func(boxed int, item bool, pre func(e, n string) []string, ex func(n string) string) func(h c20Hole, n string) c20Hole {
@@ -517,8 +541,9 @@ func c20AllAtoms() []c20Atom {
 			if boxed >= 0 {
 				b = boxed == 1
 			}
-			p := append(append([]string{}, h.pre...), pre(h.expr, n)...)
-			return c20Hole{pre: p, expr: ex(n), assignable: true, itemSyntax: item, boxed: b}
+			nh := h.withPre(pre(h.expr, n)...)
+			nh.expr, nh.assignable, nh.itemSyntax, nh.boxed = ex(n), true, item, b
+			return nh
 		}
 	}
 	return []c20Atom{
@@ -536,7 +561,9 @@ func c20AllAtoms() []c20Atom {
 		{name: "paren", apply: func(h c20Hole, n string) c20Hole {
 			// `a, b = (m[k])` is the comma-ok statement as well: the parser looks through parentheses
 			// a parenthesised place is a place (Go: (a) = 5); not generated while c20PendingFix_parenTarget
-			return c20Hole{pre: h.pre, expr: "(" + h.expr + ")", itemSyntax: h.itemSyntax, boxed: h.boxed, assignable: h.assignable && !c20PendingFix_parenTarget}
+			nh := h
+			nh.expr, nh.assignable = "("+h.expr+")", h.assignable && !c20PendingFix_parenTarget
+			return nh
 		}},
 		{name: "ternary", apply: expr(-1, false, func(e string) string { return "(true ? " + e + " : 0)" })},
 		{name: "coalesce", nonNilOnly: true, apply: expr(-1, false, func(e string) string { return "(" + e + " ?? 0)" })},
@@ -575,8 +602,9 @@ func c20AllAtoms() []c20Atom {
 			},
 			func(n string) string { return "xq" + n })},
 		{name: "chanrecv", noChan: true, apply: func(h c20Hole, n string) c20Hole {
-			p := append(append([]string{}, h.pre...), "c"+n+" = make(chan interface, 1)", "c"+n+" <- "+h.expr)
-			return c20Hole{pre: p, expr: "(<-c" + n + ")", boxed: true}
+			nh := h.withPre("c"+n+" = make(chan interface, 1)", "c"+n+" <- "+h.expr)
+			nh.expr, nh.assignable, nh.itemSyntax, nh.boxed = "(<-c"+n+")", false, false, true
+			return nh
 		}},
 		// typed Go locations holding the operand with exactly its dynamic type, for EVERY
 		// operand kind (Go helpers build them by reflection): element of a []T, field of a
@@ -678,6 +706,8 @@ type c20Tmpl struct {
 	twice              bool            // the hole is evaluated again after the operation: not with a hole whose evaluation consumes something
 	kinds              map[string]bool // nil: every operand kind; else the kinds the position is about plus a few controls
 	skip               map[string]bool
+	yPlain             bool // the second hole is always the plain host variable w: the two operands have DIFFERENT provenances
+	hostOnlySkip       bool // `skip` concerns the comparison with a host variable only (phase bindpos compares script-bound names)
 }
 
 func c20HugeOK(id string) bool {
@@ -790,10 +820,10 @@ func c20MakeTmpls() []c20Tmpl {
 	T("member-read-none", "$X.nope")
 	T("method-value-recv", "$X.Get()")
 	T("method-ptr-recv", "$X.Inc()")
-	add(c20Tmpl{id: "member-write-A", src: "$X.A = 7", skip: skip("struct"), strNeedsAssignable: true})
-	add(c20Tmpl{id: "member-write-I", src: `$X.I = "i"`, skip: skip("struct"), strNeedsAssignable: true})
-	add(c20Tmpl{id: "member-write-k", src: "$X.k = 7", skip: skip("struct"), strNeedsAssignable: true})
-	add(c20Tmpl{id: "member-write-new", src: "$X.j = 8", skip: skip("struct"), strNeedsAssignable: true})
+	add(c20Tmpl{id: "member-write-A", src: "$X.A = 7", skip: skip("struct", "verval", "faultval"), hostOnlySkip: true, strNeedsAssignable: true})
+	add(c20Tmpl{id: "member-write-I", src: `$X.I = "i"`, skip: skip("struct", "verval", "faultval"), hostOnlySkip: true, strNeedsAssignable: true})
+	add(c20Tmpl{id: "member-write-k", src: "$X.k = 7", skip: skip("struct", "verval", "faultval"), hostOnlySkip: true, strNeedsAssignable: true})
+	add(c20Tmpl{id: "member-write-new", src: "$X.j = 8", skip: skip("struct", "verval", "faultval"), hostOnlySkip: true, strNeedsAssignable: true})
 	T("deref-read", "*$X")
 	T("deref-write", "*$X = 5")
 	add(c20Tmpl{id: "elem-store-0", src: "$X[0] = 9", strNeedsAssignable: true})
@@ -962,7 +992,7 @@ func c20MakeTmpls() []c20Tmpl {
 	const mutAll = "try { p.A = 9 } catch e { }\ntry { p[0] = 9 } catch e { }\ntry { p.Inc() } catch e { }"
 	// every operand kind for the one-parameter form; the other call paths with the kinds that are
 	// copied when passed (struct, array), kinds that are shared, and a few controls
-	paramKinds := skip(strings.Fields("struct array stringer pstruct list elist map tslice tmap ptrint errp int str nil ncolor")...)
+	paramKinds := skip(strings.Fields("struct array stringer pstruct list elist map tslice tmap ptrint errp int str nil ncolor verval faultval bigarray")...)
 	P := func(id, pre, src string) {
 		t := c20Tmpl{id: id, pre: pre, src: src, twice: true}
 		if id != "param-mut-1" {
@@ -1019,6 +1049,10 @@ func c20MakeTmpls() []c20Tmpl {
 	add(c20Tmpl{id: "add-assign-value", src: "y = ($X += 2)\ny", needAssignable: true, valueOfStore: true})
 	add(c20Tmpl{id: "inc-value", src: "y = $X++\ny", needAssignable: true, valueOfStore: true})
 	add(c20Tmpl{id: "add-assign-str-value", src: "y = ($X += \"s\")\ny", needAssignable: true, valueOfStore: true})
+
+	// round 6 (c20_r6.go): operands of different provenances in ==, !=, in, switch; string concatenation
+	// positions; field / element stores and pointer-receiver methods through a bound name
+	c20R6Tmpls(add)
 
 	// the classes awaiting a repair of /repo (see the c20PendingFix constants)
 	pending := map[string]bool{}
@@ -1128,8 +1162,13 @@ var c20BindsInOwnCell = map[string]bool{"letvar": true, "varvar": true, "mletvar
 func c20MutatesInPlace(id string) bool {
 	// addr-of-name: `&x` of a struct / array value is a pointer to the value's own cell exactly
 	// when the value sits in addressable storage (the same Go distinction)
-	return id == "method-ptr-recv" || id == "slice-store" || id == "addr-of-name" || strings.HasPrefix(id, "elem-store-")
+	return id == "method-ptr-recv" || id == "slice-store" || id == "addr-of-name" || strings.HasPrefix(id, "elem-store-") ||
+		strings.HasPrefix(id, "method-ptr-") || strings.HasPrefix(id, "member-store-")
 }
+
+// operand kinds that are Go struct / array VALUES: a name bound by the script holds one in an
+// addressable cell of its own, a host variable (env.Define) does not
+var c20ValueCellKinds = map[string]bool{"struct": true, "array": true, "stringer": true, "verval": true, "faultval": true, "bigarray": true}
 
 var c20PtrKinds = map[string]bool{"ptrint": true, "pstruct": true, "errp": true, "reader": true}
 var c20IntKinds = map[string]bool{"int": true, "zero": true, "big": true}
@@ -1259,7 +1298,32 @@ func c20Instantiate(c *wk.Case, t *c20Tmpl, val, yval *c20Val, hx c20Hole, hy *c
 	if hy != nil {
 		parts = append(parts, hy.pre...)
 	}
-	parts = append(parts, c20Subst(t.src, &hx, hy))
+	wrapped := hx.open != "" || (hy != nil && hy.open != "")
+	if wrapped {
+		// phase bindpos: the operation runs inside the construct(s) binding the holes' names; its value is
+		// kept in wr, the hole read again (still inside) in wq
+		parts = append(parts, "wr = nil", "wq = nil")
+		if hx.open != "" {
+			parts = append(parts, hx.open)
+			parts = append(parts, hx.inner...)
+		}
+		if hy != nil && hy.open != "" {
+			parts = append(parts, hy.open)
+			parts = append(parts, hy.inner...)
+		}
+		parts = append(parts, "wr = func(){\n"+c20Subst(t.src, &hx, hy)+"\n}()")
+		if hx.assignable {
+			parts = append(parts, "wq = "+hx.expr)
+		}
+		if hy != nil && hy.open != "" {
+			parts = append(parts, hy.close)
+		}
+		if hx.open != "" {
+			parts = append(parts, hx.close)
+		}
+	} else {
+		parts = append(parts, c20Subst(t.src, &hx, hy))
+	}
 	src := strings.Join(parts, "\n")
 	out := c20Out{src: src}
 	if _, err, _ := ank.Parse(src); err != nil {
@@ -1273,6 +1337,9 @@ func c20Instantiate(c *wk.Case, t *c20Tmpl, val, yval *c20Val, hx c20Hole, hy *c
 	out.class = c20Class(o)
 	switch out.class {
 	case "ok":
+		if wrapped {
+			o.Val, _ = st.env.Get("wr")
+		}
 		out.val = c20NoAddr(st.render(o.Val))
 		out.typ = fmt.Sprint(reflect.TypeOf(o.Val))
 	case "panic":
@@ -1292,7 +1359,13 @@ func c20Instantiate(c *wk.Case, t *c20Tmpl, val, yval *c20Val, hx c20Hole, hy *c
 		f := ank.ExecCtx(ctx, st.env, t.follow)
 		out.follow = c20Class(f) + ":" + c20NoAddr(st.render(f.Val))
 	}
-	if hx.assignable {
+	if wrapped {
+		// the name is gone with its scope: what was read inside stands for the follow-up read
+		if hx.assignable && out.class == "ok" {
+			q, _ := st.env.Get("wq")
+			out.reread = "ok:" + c20NoAddr(st.render(q))
+		}
+	} else if hx.assignable {
 		f := ank.ExecCtx(ctx, st.env, hx.expr)
 		out.reread = c20Class(f)
 		if f.Err == nil && !f.Panicked {
@@ -1428,6 +1501,16 @@ func (g *c20Engine) chainOK(t *c20Tmpl, val *c20Val, chain []int) (bool, string)
 			last = g.atoms[chain[i]]
 		}
 	}
+	inPosition, nWrap := false, 0
+	for _, ai := range chain {
+		if g.atoms[ai].wrap {
+			inPosition = true
+			nWrap++
+		}
+	}
+	if nWrap > 1 {
+		return false, "nested-binding-constructs"
+	}
 	for _, ai := range chain {
 		a := g.atoms[ai]
 		if a.nonNilOnly && val.isNil {
@@ -1466,9 +1549,12 @@ func (g *c20Engine) chainOK(t *c20Tmpl, val *c20Val, chain []int) (bool, string)
 			return false, "address-of-non-name"
 		}
 	}
-	if (val.kind == "struct" || val.kind == "array" || val.kind == "stringer" || (val.kind == "ncolor" && t.id != "method-ptr-recv" && t.id != "addr-of-name")) && c20MutatesInPlace(t.id) {
+	if inPosition {
+		// phase bindpos: the reference is the SAME chain with the binding made by `=` (a script-bound
+		// name on both sides), so the storage of the hole is of the same kind in both programs
+	} else if (c20ValueCellKinds[val.kind] || (val.kind == "ncolor" && t.id != "method-ptr-recv" && t.id != "addr-of-name")) && c20MutatesInPlace(t.id) {
 		for i, ai := range chain {
-			if c20BindsInOwnCell[g.atoms[ai].name] && (val.kind == "struct" || val.kind == "array" || val.kind == "stringer") {
+			if c20BindsInOwnCell[g.atoms[ai].name] && c20ValueCellKinds[val.kind] {
 				// since /repo 24b1b84 EVERY binding of a struct / array (name, parameter, function
 				// result, module member) is a copy in an addressable cell of its own, whereas the
 				// reference operand handed in by the host (env.Define) is not addressable: the same
@@ -1484,7 +1570,7 @@ func (g *c20Engine) chainOK(t *c20Tmpl, val *c20Val, chain []int) (bool, string)
 				// rebuilt and converted back by the typed place, see below)
 				return false, "in-place-mutation-of-value-in-addressable-storage"
 			}
-			if val.kind == "struct" || val.kind == "array" || val.kind == "stringer" {
+			if c20ValueCellKinds[val.kind] {
 				// a struct / array bound to a name from a typed slot is a copy in a cell of its own
 				// (like the value of make(struct) or *p): a pointer-receiver method or an element store
 				// through that name changes the name's copy, whereas a struct value handed in by the
@@ -1575,6 +1661,9 @@ func (g *c20Engine) runCase(c *wk.Case, t *c20Tmpl, val *c20Val, chains [][]int)
 		var hy *c20Hole
 		if yval != nil {
 			h := c20Chain("w", "y", g.atoms, chain)
+			if t.yPlain {
+				h = c20Chain("w", "y", g.atoms, nil)
+			}
 			hy = &h
 		}
 		got := c20Instantiate(c, t, val, yval, hx, hy)
@@ -1638,7 +1727,7 @@ func init() {
 	var assignable, general []int
 	for i, a := range g.atoms {
 		atomIdx[a.name] = i
-		if a.typedOnly {
+		if a.typedOnly || a.wrap {
 			continue
 		}
 		general = append(general, i)
@@ -1674,25 +1763,47 @@ func init() {
 	for i, t := range g.tmpls {
 		tmplIdx[t.id] = i
 	}
+	// phase bindpos: quick = the templates that show value / type / identity or store through the hole, thorough = all
+	var bindWraps []string
+	for _, a := range g.atoms {
+		if a.wrap && a.name != c20BindRef {
+			bindWraps = append(bindWraps, a.name)
+		}
+	}
+	bindT := map[string][]int{}
+	for i := range g.tmpls {
+		bindT["thorough"] = append(bindT["thorough"], i)
+		if c20BindSens(&g.tmpls[i]) {
+			bindT["quick"] = append(bindT["quick"], i)
+		}
+	}
+	bindTier := func(tier string) []int {
+		if tier == "thorough" {
+			return bindT["thorough"]
+		}
+		return bindT["quick"]
+	}
 	wk.Register(&wk.Engine{
 		ID: "C20",
 		Plan: func(tier string) fw.Plan {
 			return fw.Plan{
 				Level: "exploration",
-				Rule: fmt.Sprintf("metamorphic: %d operation templates x %d operand values x provenance chains over %d atoms (+%d binding hops used by phase typed only); reference = plain variable. "+
-					"operand kinds include named basic types with methods, error / Stringer / io.Reader implementations and a Go array; atoms include typed addressable Go locations built around ANY operand ([]T element, *struct{F T} field, *T target, map[string]T entry); templates include Go parameters, typed literals and typed places of non-empty interface types and of named types, method calls, typed map lookups, and read-then-store-in-one-expression (live-*) cases; type-specific positions are instantiated with the kinds they are about plus controls. "+
+				Rule: fmt.Sprintf("metamorphic: %d operation templates x %d operand values x provenance chains over %d atoms (+%d binding hops used by phase typed only, +%d binding constructs used by phase bindpos only); reference = plain variable. "+
+					"operand kinds include named basic types with methods, error / Stringer / io.Reader implementations, a Go array, struct VALUES whose pointer type is a Stringer / an error (String, Error and a mutator with pointer receivers) and a 512-byte Go array [64]int64; templates with two operands of DIFFERENT provenances (the hole against a plain host variable holding an equal value) for ==, !=, in, switch, and string concatenation in every position (s + x, x + s, s += x, s + x + s); atoms include typed addressable Go locations built around ANY operand ([]T element, *struct{F T} field, *T target, map[string]T entry); templates include Go parameters, typed literals and typed places of non-empty interface types and of named types, method calls, typed map lookups, and read-then-store-in-one-expression (live-*) cases; type-specific positions are instantiated with the kinds they are about plus controls. "+
 					"phase fixed: the difference classes seen on the pinned tree; phase typed: the type-/identity-revealing templates x every value x (typed location x binding hop: =, var, multi-assignment, parameter, 5th parameter, return, returned name, closure, for-in variable; Go result / interface{} field x var, parameter, 5th parameter, closure) (complete); phase pairs: arguments bound by spreading a list (f(l...), f(0, l...), under defer and go, into fixed-arity script functions) against the same arguments written out (f(l[0], l[1])), with callees that overwrite the list, keep a closure, assign their parameter or apply kind-sensitive operators (complete list); phase len1: EVERY template x value x atom (complete); "+
 					"templates param-*: a script callee stores into a field / element of its parameter (1..4 parameters, 5 parameters, variadic function, spread, function value given by an expression, module function, nested call, defer, go, host callback) and the caller reads the argument expression again; "+
 					"phases concur / concur-race: one call site whose callee is given by an expression (list element, map entry, member, struct field, typed slice element, pointer target, call result, Go result, parentheses, ternary, ??, two hops, module member) evaluated N times by each of 3-5 overlapping evaluations (goroutines started by `go` in one script; one parsed tree run on several VMs) whose callees are different closures obtained through different provenances - every call must return its own callee's result, as the call by name does (concur-race: same programs, fewer rounds, -race build); "+
-					"phase live (c20_r5live.go): %d sites (binary operators, in, index, slice, call arguments of script / Go / variadic / deferred calls, callee, list and map literals incl. the key, send value and channel, delete, switch subject, make sizes, multi-value return / assignment, the right side of element / key / member / field stores, switch case lists, Go parameters typed T / ...T, for-in subjects in the one- and two-variable form, and the bindings: =, var, multi-assignment, module member, comma-ok into a name / a module member, member, element, field, parameters, closure, explicit and implicit results (also with a deferred store), for-in variable, literals, Go argument, send, deferred argument) x %d operand kinds (scalars, named types, Go arrays [3]int64 / [2]string / [2]float64 / [2][2]int64, structs (one holding an array), typed slice, typed map, pointers, open / closed channel, Go function) x 12 places holding the operand (name, module member, []T element, field typed T, *T target, element of an array / slice field, untyped list element, map entry / member, map[string]T entry, interface{} field) x {the place is REPLACED by a sibling value, the value held there is MUTATED in place} while the operation is under way or right after the binding; reference in position: the same program with the operand id(place) and func(){ return place }(); variants place, (place), (true ? place : nil) (quick: place and one of the other two) (complete); plus the special families forin-var (the loop variable against a let-bound copy, pointer elements, 8 containers) and addr-hop; "+
+					"phase live (c20_r5live.go): %d sites (binary operators, in, index, slice, call arguments of script / Go / variadic / deferred calls, callee, list and map literals incl. the key, send value and channel, delete, switch subject, make sizes, multi-value return / assignment, the right side of element / key / member / field stores, switch case lists, Go parameters typed T / ...T, for-in subjects in the one- and two-variable form, the key of a typed map literal, the index operand of the container of a nested assignment target, the target operands of the comma-ok statement, in-place stores made through the result of a function whose body reads the place, and the bindings: =, var, multi-assignment, module member, comma-ok into a name / a module member, member, element, field, parameters, closure, explicit and implicit results (also with a deferred store), for-in variable, literals, Go argument, send, deferred argument) x %d operand kinds (scalars, named types, Go arrays [3]int64 / [2]string / [2]float64 / [2][2]int64, structs (one holding an array), typed slice, typed map, pointers, open / closed channel, Go function) x 12 places holding the operand (name, module member, []T element, field typed T, *T target, element of an array / slice field, untyped list element, map entry / member, map[string]T entry, interface{} field) x {the place is REPLACED by a sibling value, the value held there is MUTATED in place} while the operation is under way or right after the binding; reference in position: the same program with the operand id(place) and func(){ return place }(); variants place, (place), (true ? place : nil) (quick: place and one of the other two) (complete); plus the special families forin-var (the loop variable against a let-bound copy, pointer elements, 8 containers) and addr-hop; "+
+					"phase bindpos (c20_r6.go): a name is a name however it was bound - the operation runs INSIDE the construct binding the hole's name (for-in over an untyped list / a variadic tail / a list returned by Go / a []T / a [1]T / a chan T / the values of an untyped and of a typed map, a parameter of a callee called by the script or by a Go function, var), reference in position = the same program with the name bound by `=` in a block; compared incl. field / element stores and pointer-receiver methods through the name and the name read again afterwards; thorough = every template x value x 5 source hops x 11 binding constructs, quick = the value- / type- / identity-revealing and storing templates x struct and array values (from a host value and from a typed slot) plus %d core templates x every value (complete); "+
 					"phase deep: quick = 8 PRNG chains of length 2..3 per (template,value), thorough = every chain of length 2 plus 80 PRNG chains of length 3. "+
-					"Each instantiation runs in a fresh environment with fresh operand objects. An evaluation is non-trivial when the reference or the variant succeeded; distinct = distinct (template, value, source).", nT, nV, nA, len(g.atoms)-nA, len(c20Live().sites), len(c20Live().kinds)),
+					"Each instantiation runs in a fresh environment with fresh operand objects. An evaluation is non-trivial when the reference or the variant succeeded; distinct = distinct (template, value, source).", nT, nV, nA, len(g.atoms)-nA-len(bindWraps)-1, len(bindWraps), len(c20Live().sites), len(c20Live().kinds), len(c20BindCore)),
 				Assumptions: []string{
 					"error texts are not compared (statement: same error-or-success), except for throw",
 					"pointers/channels/functions are compared by identity with the operand object and by their effects, never by printed address",
 					"excluded: `a, b = <index expr>` (also parenthesised), &$X of anything but a name, the value of $X++ / $X op= e, string/appending stores and struct-value field stores through non-assignable holes, in-place mutation of struct/array values held in addressable typed locations, non-type-keeping stores into typed places, the for-in loop variable of a pointer operand",
 					"whether a store into a field / element of a struct / array PARAMETER succeeds inside the callee depends on the addressability of the parameter's cell (not compared: caught inside the callee); compared is the caller's operand after the call",
 					"phases concur / concur-race decide nothing on timing: a wrong callee, an error or a race report is a fact of the run; overlapping evaluations that happen not to collide are silent",
+					"phase bindpos takes the value of the operation through `wr = func(){ ... }()` inside the binding construct, in the reference and in the variant alike (the closure reads the name from the enclosing scope in both); the follow-up read of the hole is made inside the construct too, and only when the operation succeeded; two binding constructs are not nested except for the second hole of a two-operand template",
 					"phase live assumes no evaluation order: the reference operand id(place) is evaluated at the same point of the same operation as the direct operand; not generated there: in-place stores into a map while it is iterated (Go leaves open whether the entry is visited), slicing a Go array (the result aliases an addressable array and copies another one: Go's distinction), arrays / structs as the container of an assignment target (addressability), compound assignments to the place",
 					"round-5 classes not generated while their c20PendingFix_* constant (c20_r5live.go) is true: container of an assignment target read from a slot (liveTargetContainer), write-back of &x given through a hop (addrHopWriteback), a Go array as the container of an index expression (liveArrayContainer), the receiver of a method call with arguments (liveMethodReceiver)",
 					"round-4 classes not generated while their c20PendingFix_* constant is true: live for-in subject, live defer / call callee read from a typed func slot, boxed result list of a multi-result callback, value of `place op= e` / `place++` for map / member places, parenthesised assignment targets",
@@ -1703,6 +1814,7 @@ func init() {
 					{Name: "len1", Cases: nT * nV, Chunk: 160, Exhaust: true, TimeoutS: 900},
 					{Name: "typed", Cases: len(sensT) * nV, Chunk: 160, Exhaust: true, TimeoutS: 900},
 					{Name: "pairs", Cases: len(c20Pairs()), Chunk: 64, Exhaust: true, TimeoutS: 600},
+					{Name: "bindpos", Cases: len(bindTier(tier)) * nV, Chunk: 160, Exhaust: true, TimeoutS: 900},
 					{Name: "deep", Cases: nT * nV, Chunk: map[string]int{"quick": 160, "thorough": 40}[tier], TimeoutS: 1800},
 					{Name: "live", Cases: c20LiveCases(), Chunk: 160, Jobs: 4, MemMB: 3072, Exhaust: true, TimeoutS: 900},
 					{Name: "concur", Cases: c20ConcurCases(), Chunk: 2, TimeoutS: 900},
@@ -1734,6 +1846,8 @@ func init() {
 					chains[i] = []int{general[i]}
 				}
 				g.runCase(c, t, v, chains)
+			case "bindpos":
+				g.runBindPos(c, &g.tmpls[bindTier(c.Tier)[c.Index/nV]], &g.vals[c.Index%nV], atomIdx, bindWraps)
 			case "typed":
 				g.runCase(c, &g.tmpls[sensT[c.Index/nV]], &g.vals[c.Index%nV], typedChains)
 			case "deep":
